@@ -5,7 +5,7 @@ import string
 
 from core import term as T
 
-IMPORTS = ["Lib.Hex", "Model.UriBase32", "Model.Uri"]
+IMPORTS = ["Lib.Hex", "Lib.Bytes", "Model.UriBase32", "Model.Uri"]
 B32 = b"abcdefghijklmnopqrstuvwxyz234567"
 
 FILE_KINDS = ["CHK", "CHKVerifier", "LIT", "SSK", "SSKRO", "SSKVerifier", "MDMF", "MDMFRO", "MDMFVerifier"]
@@ -148,8 +148,16 @@ ERR = {None: "ENone", "BadURIError": "EBadURI", "MustBeDeepImmutableError": "EMu
        "MustBeReadonlyError": "EMustBeReadonly", "MustNotBeUnknownRWError": "EMustNotBeUnknownRW"}
 
 
+def num_term(n):
+    """Coq term for a natural number.  Coq parses a 4300-digit decimal literal in ~17 s (hex: 2.6 s); big
+    values are therefore passed as big-endian octets and folded with Lib.Bytes.be_value."""
+    if n < 2 ** 64:
+        return T.N(n)
+    return "(be_value 256 %s)" % T.bytes_(n.to_bytes((n.bit_length() + 7) // 8, "big"))
+
+
 def filecap_term(kind, fields):
-    args = " ".join(T.bytes_(x) if isinstance(x, (bytes, bytearray)) else T.N(x) for x in fields)
+    args = " ".join(T.bytes_(x) if isinstance(x, (bytes, bytearray)) else num_term(x) for x in fields)
     return "(%s %s)" % (kind, args)
 
 
